@@ -30,7 +30,8 @@ def spaces(cell, gdim):
         "P2": ufl.FunctionSpace(mesh, el("P", cell, 2)),
         "P1": ufl.FunctionSpace(mesh, el("P", cell, 1)),
         "DG0": ufl.FunctionSpace(mesh, el("DG", cell, 0)),
-        "vP1": ufl.FunctionSpace(mesh, el("P", cell, 1, shape=(gdim,))),
+        # the vector-valued coefficient lives in a MIXED space (vector P2 x P1): sub-element offsets inside w, also under '-' restrictions
+        "vP1": ufl.FunctionSpace(mesh, basix.ufl.mixed_element([el("P", cell, 2, shape=(gdim,)), el("P", cell, 1)])),
         "DG1": ufl.FunctionSpace(mesh, el("DG", cell, 1)),
     }
     return mesh, V
